@@ -28,6 +28,7 @@ import (
 	"github.com/semihalev/sdns/internal/mock"
 	"github.com/semihalev/sdns/middleware"
 	mcache "github.com/semihalev/sdns/middleware/cache"
+	"github.com/semihalev/sdns/middleware/edns"
 	"github.com/semihalev/sdns/middleware/resolver"
 	"github.com/semihalev/sdns/verifharness/vh"
 )
@@ -52,6 +53,9 @@ type reqRun struct {
 	driver  string
 }
 
+// the EDNS layer in front of the cache (it owns the OPT / EDE of wire-served replies)
+var ednsLayer *edns.EDNS
+
 func newCache(cfg mCfg, clock *vclock) *mcache.Cache {
 	c := &config.Config{CacheSize: 1024, Expire: 300}
 	c.RecursionFirewall.FailureCacheMinTTL.Duration = time.Duration(cfg.Min) * time.Second
@@ -64,6 +68,9 @@ func newCache(cfg mCfg, clock *vclock) *mcache.Cache {
 	}
 	mc := mcache.New(c)
 	mc.VerifC13SetFailureNow(clock.Now)
+	if ednsLayer == nil {
+		ednsLayer = edns.New(c)
+	}
 	return mc
 }
 
@@ -165,7 +172,12 @@ type reqCtl struct {
 	cancel  context.CancelFunc
 	ledger  *middleware.RecursionWorkLedger
 	variant int
+	// msgOnly: the cause lives on the caller's context, which only a message-born
+	// request keeps (a wire-born request is detached onto the chain's own carrier).
+	msgOnly bool
 }
+
+var budgetPolicy = middleware.RecursionWorkPolicy{Mode: middleware.RecursionWorkEnforce, MaxOutboundQueries: 1, MaxInternalQueries: 32}
 
 // prepareCtx builds the request context an outcome needs before ServeDNS runs.
 func prepareCtx(o outcome, rng *rand.Rand) (context.Context, *reqCtl) {
@@ -173,16 +185,21 @@ func prepareCtx(o outcome, rng *rand.Rand) (context.Context, *reqCtl) {
 	ctl := &reqCtl{variant: rng.Intn(2)}
 	switch o.O {
 	case "budget":
-		ctl.ledger = middleware.NewRecursionWorkLedger(middleware.RecursionWorkPolicy{
-			Mode: middleware.RecursionWorkEnforce, MaxOutboundQueries: 1, MaxInternalQueries: 32})
-		ctx = middleware.WithRecursionWork(ctx, ctl.ledger)
+		if rng.Intn(2) == 0 { // ledger installed above the cache; otherwise the downstream installs it (as the resolver does)
+			ctl.ledger = middleware.NewRecursionWorkLedger(budgetPolicy)
+			ctx = middleware.WithRecursionWork(ctx, ctl.ledger)
+			ctl.msgOnly = true
+		}
 	case "bestEffort":
 		ctx = middleware.WithBestEffortRecursionWork(ctx)
+		ctl.msgOnly = true
 	case "cancel":
 		ctx, ctl.cancel = context.WithCancel(ctx)
+		ctl.msgOnly = true
 	case "deadline":
 		if ctl.variant == 1 {
 			ctx, ctl.cancel = context.WithTimeout(ctx, 15*time.Millisecond)
+			ctl.msgOnly = true
 		}
 	}
 	return ctx, ctl
@@ -220,12 +237,20 @@ func (r *reqRun) serveOutcome(ctx context.Context, ch *middleware.Chain, o outco
 		}
 		resp = servfailReply(req, dns.ExtendedErrorCodeNoReachableAuthority, "All authoritative servers failed", r.rng)
 	case "budget":
-		_ = ctl.ledger.Debit(middleware.RecursionWorkOutboundQuery)
-		err := ctl.ledger.Debit(middleware.RecursionWorkOutboundQuery)
+		ledger, lctx := ctl.ledger, ctx
+		if ledger == nil {
+			lctx, ledger = middleware.EnsureRecursionWork(ctx, budgetPolicy)
+		}
+		if ledger == nil {
+			r.res.Skip("no recursion-work ledger could be established for the request")
+			ledger = middleware.NewRecursionWorkLedger(budgetPolicy)
+		}
+		_ = ledger.Debit(middleware.RecursionWorkOutboundQuery)
+		err := ledger.Debit(middleware.RecursionWorkOutboundQuery)
 		if !errors.Is(err, middleware.ErrRecursionWorkLimit) {
 			r.res.Skip("ledger in enforce mode did not reject the second debit: %v", err)
 		}
-		allFailed(ctx, err)
+		allFailed(lctx, err)
 		resp = servfailReply(req, dns.ExtendedErrorCodeOther, "work", r.rng)
 		if ctl.variant == 1 {
 			mctx, _ := middleware.EnsureResolutionAttemptGuard(ctx)
@@ -315,9 +340,9 @@ func (r *reqRun) serve(k qkey, o outcome) (reply, int, string) {
 		r.serveOutcome(c, ch, o, ctl)
 	})
 	w := mock.NewWriter("udp", "203.0.113.9:40000")
-	ch := middleware.NewChain([]middleware.Handler{r.c, down})
+	ch := middleware.NewChain([]middleware.Handler{ednsLayer, r.c, down})
 	born := "msg"
-	if r.rng.Intn(2) == 0 {
+	if !ctl.msgOnly && r.rng.Intn(2) == 0 {
 		if raw, err := req.Pack(); err == nil {
 			wr := new(middleware.Request)
 			if wr.ParseWire(raw, time.Now(), nil) {
@@ -478,6 +503,7 @@ func (o *oracle) applyOutcome(k qkey, out outcome) {
 	switch out.O {
 	case "useful":
 		o.resetMatching(k)
+		o.resetQ(qkey{k.n, k.t, k.c, k.cd, 0}) // the answer is global: the shared-key write resets the shared audience too
 	case "servfail":
 		o.recordQ(k, "response")
 	case "authfail":
